@@ -317,6 +317,37 @@ func (r *Run) AnyKnownTrigger() bool {
 	return false
 }
 
+// ReplayDivergenceTrigger reports whether the history contains the trigger of a listed finding that
+// makes a WAL replay (with or without a chunk snapshot) return other data than the live head did:
+// samples logged before their series record, a re-created series, a converted staleness marker
+// reordered at commit, a merged out-of-order block, a re-issued ref, or a deletion whose samples
+// were truncated or cleaned away afterwards. A plain deletion is not such a trigger.
+func (r *Run) ReplayDivergenceTrigger() bool {
+	if len(r.tainted) > 0 || r.riskBound != math.MinInt64 || r.SnapRefRisk || r.Did["stale-reorder"] > 0 || len(r.staleReordered) > 0 {
+		return true
+	}
+	for _, st := range r.dupStage {
+		if st >= 1 {
+			return true
+		}
+	}
+	for _, m := range r.headDeleted {
+		for _, st := range m {
+			if st >= 2 {
+				return true
+			}
+		}
+	}
+	for _, m := range r.blockDeleted {
+		for _, st := range m {
+			if st >= 2 {
+				return true
+			}
+		}
+	}
+	return false
+}
+
 // SoundnessTrigger reports whether a known finding that can make the implementation return
 // a sample the model does not contain (without any delete) was triggered.
 func (r *Run) SoundnessTrigger() bool { return len(r.tainted) > 0 || r.Did["stale-reorder"] > 0 }
@@ -936,6 +967,15 @@ func (r *Run) classify(opK string, err error) error {
 	}
 	if r.SnapRefRisk && (opK == "reopen" || opK == "crashreopen") {
 		return ev.FailSig(SigSnapRef, "%s", err.Error())
+	}
+	if r.Cfg.Snapshot && r.failExtra && (opK == "reopen" || opK == "crashreopen") && r.failSeries >= 0 {
+		// the symptom of a re-issued ref: after a snapshot restart a sample committed to one series
+		// is returned under another one (the WBL / m-mapped chunks still carry the old owner's ref)
+		for si, ser := range r.M.Series {
+			if si != r.failSeries && ser.Pts[r.failT] != nil {
+				return ev.FailSig(SigSnapRef, "%s", err.Error())
+			}
+		}
 	}
 	return err
 }
